@@ -378,6 +378,18 @@ func flush() {
 // ---------------------------------------------------------------------------
 // running
 
+var atExit []func()
+
+// AtExit registers a clean-up function that Main runs before the process exits.
+func AtExit(f func()) { atExit = append(atExit, f) }
+
+func exit(code int) {
+	for _, f := range atExit {
+		f()
+	}
+	os.Exit(code)
+}
+
 // Main is called from TestMain of every property package.
 func Main(m *testing.M) {
 	flag.Parse()
@@ -385,19 +397,19 @@ func Main(m *testing.M) {
 		rf, err := LoadReplay(replayIn)
 		if err != nil {
 			fmt.Printf("INFRA: %v\n", err)
-			os.Exit(3)
+			exit(3)
 		}
 		if err := RunReplay(rf); err != nil {
 			fmt.Printf("REPLAY-FAIL check=%s: %v\n", rf.Check, err)
-			os.Exit(1)
+			exit(1)
 		}
 		fmt.Printf("REPLAY-PASS check=%s\n", rf.Check)
-		os.Exit(0)
+		exit(0)
 	}
 	loadFindings()
 	code := m.Run()
 	flush()
-	os.Exit(code)
+	exit(code)
 }
 
 // rapidSeed derives the per-shard PRNG value (never 0: rapid treats 0 as random).
